@@ -1977,6 +1977,9 @@ func c05WebsocketTlsDialHasManagerConfig(w *World, r *Report) {
 	}
 	excludesWss := func(fn *ssa.Function, st *pathState) bool {
 		for v, t := range st.Facts {
+			if !t && tableMissExcludes(w, v, "wss") {
+				return true // the lookup in a scheme table that has a "wss" entry missed
+			}
 			b, ok := v.(*ssa.BinOp)
 			if !ok || b.Op != token.EQL || t {
 				continue
@@ -2100,6 +2103,19 @@ func c05WebsocketTlsDialHasManagerConfig(w *World, r *Report) {
 				return
 			}
 			if !isC {
+				// the verdict read from a constant scheme table: every entry that says 'not secure' names a scheme other than wss
+				if entries, field, _ := tableFieldLookup(w, verdict); entries != nil {
+					for _, en := range entries {
+						if sec, ok := en.Fields[field]; ok && sec.Kind() == constant.Bool && !constant.BoolVal(sec) {
+							for fname, fv := range en.Fields {
+								if fv.Kind() == constant.String && constant.StringVal(fv) == "wss" {
+									bad = fmt.Sprintf("the scheme table maps %q to the dial scheme \"wss\" (field %s) with the verdict 'not secure'", en.Key, fname)
+								}
+							}
+						}
+					}
+					return
+				}
 				if t, known := e.State.Truth(verdict); known {
 					if t {
 						return
@@ -2241,40 +2257,82 @@ func c06NoPanicOnPeerWriteFault(w *World, r *Report) {
 				n++
 				k++
 				key := fmt.Sprintf("panic@%s#%d", ssaFuncKey(fn), k)
-				// the failed write that leads here
-				var dest ssa.Value
-				okDom := dominatedByCond(fn, pn, func(v ssa.Value) bool {
-					bo, ok := v.(*ssa.BinOp)
-					if !ok || bo.Op != token.NEQ || !isErrorType(bo.X.Type()) {
-						return false
-					}
-					for _, root := range provenance(bo.X, provOpts{}) {
+				// the failed write(s) that lead here: the error tested is the result of a write, or a parameter that every
+				// caller fills with one (`mustRender(err, what)`)
+				var dests []ssa.Value
+				var destsOf func(f *ssa.Function, errv ssa.Value, depth int) bool
+				destsOf = func(f *ssa.Function, errv ssa.Value, depth int) bool {
+					found := false
+					for _, root := range provenance(errv, provOpts{}) {
 						var call *ssa.Call
 						switch x := root.(type) {
 						case *ssa.Call:
 							call = x
 						case *ssa.Extract:
 							call, _ = x.Tuple.(*ssa.Call)
-						}
-						if call == nil {
+						case *ssa.Parameter:
+							if depth >= 2 {
+								return false
+							}
+							idx := paramIndex(f, x)
+							ncall := 0
+							for _, g := range cone {
+								for _, c := range callsIn(g) {
+									if c.Common().StaticCallee() == f && idx >= 0 && idx < len(c.Common().Args) {
+										ncall++
+										if !destsOf(g, c.Common().Args[idx], depth+1) {
+											return false
+										}
+									}
+								}
+							}
+							if ncall == 0 {
+								return false
+							}
+							found = true
 							continue
 						}
+						if call == nil {
+							if c, isC := root.(*ssa.Const); isC && c.IsNil() {
+								continue
+							}
+							return false
+						}
+						var d ssa.Value
 						if call.Call.IsInvoke() && writerIface(call.Call.Value.Type()) {
-							dest = call.Call.Value
+							d = call.Call.Value
 						}
 						for _, a := range call.Call.Args {
 							if writerIface(a.Type()) || memBuffer(a) {
-								dest = a
+								d = a
 							}
 						}
+						if d == nil {
+							return false
+						}
+						dests = append(dests, d)
+						found = true
 					}
-					return dest != nil
+					return found
+				}
+				okDom := dominatedByCond(fn, pn, func(v ssa.Value) bool {
+					bo, ok := v.(*ssa.BinOp)
+					if !ok || bo.Op != token.NEQ || !isErrorType(bo.X.Type()) {
+						return false
+					}
+					dests = nil
+					return destsOf(fn, bo.X, 0) && len(dests) > 0
 				}, true)
-				if !okDom || dest == nil {
+				if !okDom || len(dests) == 0 {
 					r.Violate(rule, key, w.Pos(pn.Pos()), "an explicit panic in the handshake code that is not the guard of a write to an in-memory buffer: nothing between the socket and this code recovers — whatever leads here ends the process for every peer")
 					continue
 				}
-				okm, why := inMemory(dest, 0)
+				okm, why := true, ""
+				for _, dest := range dests {
+					if o, y := inMemory(dest, 0); !o {
+						okm, why = false, y
+					}
+				}
 				r.Check(okm, rule, key, w.Pos(pn.Pos()), "the panic guards a write to an in-memory buffer (bytes.Buffer / strings.Builder at every call site): it cannot happen",
 					fmt.Sprintf("the panic guards a write whose destination can be %s — a writer on the peer's connection: a peer that hangs up while an oversized answer is being written makes the write fail, and the panic, on a goroutine without recover, ends the process for every peer", why))
 			}
@@ -2789,6 +2847,100 @@ func c14AcceptFailureClosesCarrier(w *World, r *Report) {
 		r.Undecided(rule, key, "-", "anchor unresolved")
 		return
 	}
+	saysClosed := func(v ssa.Value) bool {
+		c, ok := v.(*ssa.Call)
+		if !ok {
+			return false
+		}
+		f := sCallee(c)
+		if f == nil || f.Pkg() == nil || f.Pkg().Path() != "strings" || f.Name() != "Contains" {
+			// errors.Is(err, net.ErrClosed)
+			if f != nil && f.Pkg() != nil && f.Pkg().Path() == "errors" && f.Name() == "Is" && len(c.Call.Args) == 2 {
+				for _, root := range provenance(c.Call.Args[1], provOpts{}) {
+					if u, ok := root.(*ssa.UnOp); ok {
+						if g, ok := u.X.(*ssa.Global); ok && g.Name() == "ErrClosed" {
+							return true
+						}
+					}
+				}
+			}
+			return false
+		}
+		s, isC := constStrVal(c.Call.Args[1])
+		return isC && strings.Contains(s, "closed network connection")
+	}
+	// a path needs no close: there is no carrier, or the error says the carrier is closed already
+	excused := func(st *pathState, isCarrier func(ssa.Value) bool) bool {
+		for v, t := range st.Facts {
+			if t && saysClosed(v) {
+				return true
+			}
+			if x, eqNil, ok := nilTest(v); ok && t == eqNil && isCarrier(x) {
+				return true
+			}
+			if hc, ok := v.(*ssa.Call); ok {
+				if h := hc.Call.StaticCallee(); h != nil && inModule(h) && len(h.Blocks) > 0 {
+					if predicateHelperImplies(h, t, func(facts map[ssa.Value]bool) bool {
+						for v2, t2 := range facts {
+							if t2 && saysClosed(v2) {
+								return true
+							}
+						}
+						return false
+					}) {
+						return true
+					}
+				}
+			}
+		}
+		return false
+	}
+	// closesOrExcused: every return path of g closes what isCarrier recognises (directly, or through a helper that
+	// does), or is excused
+	var closesOrExcused func(g *ssa.Function, isCarrier func(ssa.Value) bool, depth int) bool
+	closeEvent := func(g *ssa.Function, isCarrier func(ssa.Value) bool, depth int) func(ssa.Instruction) bool {
+		return func(in ssa.Instruction) bool {
+			c, ok := in.(ssa.CallInstruction)
+			if !ok {
+				return false
+			}
+			if isCloseOn(w, c, isCarrier) {
+				return true
+			}
+			if sc := c.Common().StaticCallee(); sc != nil && inModule(sc) && len(sc.Blocks) > 0 && depth < 2 {
+				for i, a := range c.Common().Args {
+					if !isCarrier(a) || i >= len(sc.Params) {
+						continue
+					}
+					p := sc.Params[i]
+					if closesOrExcused(sc, func(v ssa.Value) bool {
+						for _, root := range provenance(v, provOpts{}) {
+							if root == ssa.Value(p) {
+								return true
+							}
+						}
+						return false
+					}, depth+1) {
+						return true
+					}
+				}
+			}
+			return false
+		}
+	}
+	closesOrExcused = func(g *ssa.Function, isCarrier func(ssa.Value) bool, depth int) bool {
+		all, n := true, 0
+		okp := enumPaths(g, nil, closeEvent(g, isCarrier, depth), nil, func(e pathExit) {
+			if _, isRet := e.Last.(*ssa.Return); !isRet {
+				return
+			}
+			n++
+			if len(e.State.Events) == 0 && !excused(e.State, isCarrier) {
+				all = false
+			}
+		})
+		return okp && all && n > 0
+	}
 	conn := fn.Params[0]
 	onCarrier := func(v ssa.Value) bool {
 		for _, root := range provInter(v, 0) {
@@ -2815,82 +2967,9 @@ func c14AcceptFailureClosesCarrier(w *World, r *Report) {
 		}
 		return false
 	}
-	closes := func(in ssa.Instruction) bool {
-		c, ok := in.(ssa.CallInstruction)
-		if !ok {
-			return false
-		}
-		if isCloseOn(w, c, onCarrier) {
-			return true
-		}
-		// a module helper that closes its argument on all paths
-		if sc := c.Common().StaticCallee(); sc != nil && inModule(sc) && len(sc.Blocks) > 0 {
-			for i, a := range c.Common().Args {
-				if !onCarrier(a) || i >= len(sc.Params) {
-					continue
-				}
-				p := sc.Params[i]
-				all, n := true, 0
-				okp := enumPaths(sc, nil, func(in2 ssa.Instruction) bool {
-					c2, ok := in2.(ssa.CallInstruction)
-					return ok && isCloseOn(w, c2, func(v ssa.Value) bool {
-						for _, root := range provenance(v, provOpts{}) {
-							if root == ssa.Value(p) {
-								return true
-							}
-						}
-						return false
-					})
-				}, nil, func(e pathExit) {
-					if _, isRet := e.Last.(*ssa.Return); isRet {
-						n++
-						if len(e.State.Events) == 0 {
-							// nothing to close: the argument is nil on this path
-							for v, t := range e.State.Facts {
-								if x, eqNil, ok := nilTest(v); ok && t == eqNil {
-									for _, root := range provenance(x, provOpts{}) {
-										if root == ssa.Value(p) {
-											return
-										}
-									}
-								}
-							}
-							all = false
-						}
-					}
-				})
-				if okp && all && n > 0 {
-					return true
-				}
-			}
-		}
-		return false
-	}
-	saysClosed := func(v ssa.Value) bool {
-		c, ok := v.(*ssa.Call)
-		if !ok {
-			return false
-		}
-		f := sCallee(c)
-		if f == nil || f.Pkg() == nil || f.Pkg().Path() != "strings" || f.Name() != "Contains" {
-			// errors.Is(err, net.ErrClosed)
-			if f != nil && f.Pkg() != nil && f.Pkg().Path() == "errors" && f.Name() == "Is" && len(c.Call.Args) == 2 {
-				for _, root := range provenance(c.Call.Args[1], provOpts{}) {
-					if u, ok := root.(*ssa.UnOp); ok {
-						if g, ok := u.X.(*ssa.Global); ok && g.Name() == "ErrClosed" {
-							return true
-						}
-					}
-				}
-			}
-			return false
-		}
-		s, isC := constStrVal(c.Call.Args[1])
-		return isC && strings.Contains(s, "closed network connection")
-	}
 	bad := ""
 	nfail := 0
-	okp := enumPaths(fn, nil, closes, nil, func(e pathExit) {
+	okp := enumPaths(fn, nil, closeEvent(fn, onCarrier, 0), nil, func(e pathExit) {
 		ret, isRet := e.Last.(*ssa.Return)
 		if !isRet || len(ret.Results) == 0 || bad != "" {
 			return
@@ -2899,31 +2978,8 @@ func c14AcceptFailureClosesCarrier(w *World, r *Report) {
 			return
 		}
 		nfail++
-		if len(e.State.Events) > 0 {
+		if len(e.State.Events) > 0 || excused(e.State, onCarrier) {
 			return
-		}
-		for v, t := range e.State.Facts {
-			if t && saysClosed(v) {
-				return
-			}
-			// no carrier at all
-			if x, eqNil, ok := nilTest(v); ok && t == eqNil && onCarrier(x) {
-				return
-			}
-			if hc, ok := v.(*ssa.Call); ok {
-				if h := hc.Call.StaticCallee(); h != nil && inModule(h) && len(h.Blocks) > 0 {
-					if predicateHelperImplies(h, t, func(facts map[ssa.Value]bool) bool {
-						for v2, t2 := range facts {
-							if t2 && saysClosed(v2) {
-								return true
-							}
-						}
-						return false
-					}) {
-						return
-					}
-				}
-			}
 		}
 		bad = fmt.Sprintf("%s: AcceptConnection returns an error without having closed the carrier, on a path that has not established that the carrier is closed already: the accept loop has forgotten the connection, so the socket stays open (CLOSE_WAIT) for every peer that leaves during the negotiation — one descriptor per port probe or health check", w.Pos(ret.Pos()))
 	})
@@ -3121,10 +3177,48 @@ func ruleCodecCommitFollowsItsProbe(w *World, r *Report, rule string) {
 			}
 			npaths++
 			closed := false
+			isClosedFact := func(v ssa.Value, t bool) bool {
+				cl, ok := v.(*ssa.Call)
+				if !ok || !t {
+					return false
+				}
+				f := sCallee(cl)
+				return f != nil && f.Name() == "Closed"
+			}
 			for v, t := range e.State.Facts {
-				if cl, ok := v.(*ssa.Call); ok && t {
-					if f := sCallee(cl); f != nil && f.Name() == "Closed" {
-						closed = true
+				if isClosedFact(v, t) {
+					closed = true
+				}
+				// a probing helper that reports "given up, the connection was closed" in one of its results:
+				// `working, finished := dc.probeDownstreamEncoders(); if !finished { return }`
+				if ex, ok := v.(*ssa.Extract); ok {
+					if hc, ok := ex.Tuple.(*ssa.Call); ok {
+						if h := hc.Call.StaticCallee(); h != nil && inModule(h) && len(h.Blocks) > 0 {
+							all, n := true, 0
+							okh := enumPaths(h, nil, nil, nil, func(e2 pathExit) {
+								ret, isRet := e2.Last.(*ssa.Return)
+								if !isRet || ex.Index >= len(ret.Results) {
+									return
+								}
+								b, isC := constBool(e2.State.Resolve(ret.Results[ex.Index]))
+								if isC && b != t {
+									return // this return does not produce the observed value
+								}
+								n++
+								cl2 := false
+								for v2, t2 := range e2.State.Facts {
+									if isClosedFact(v2, t2) {
+										cl2 = true
+									}
+								}
+								if !cl2 {
+									all = false
+								}
+							})
+							if okh && all && n > 0 {
+								closed = true
+							}
+						}
 					}
 				}
 			}
@@ -3219,4 +3313,185 @@ func codecGlobal(v ssa.Value) *ssa.Global {
 		}
 	}
 	return nil
+}
+
+// ---- small constant tables: `var t = map[string]struct{ scheme string; secure bool }{ "https": {"wss", true}, … }`
+
+type constTableEntry struct {
+	Key    string
+	Fields map[string]constant.Value
+}
+
+// constTableOf: the entries of a package-level map[string]struct literal with constant keys and constant field
+// values, only ever assigned by its declaration (frozenGlobal). nil if g is not such a table.
+func constTableOf(w *World, g *ssa.Global) []constTableEntry {
+	if g == nil || !frozenGlobal(g) {
+		return nil
+	}
+	for _, p := range w.Pkgs {
+		if p.Types != g.Pkg.Pkg {
+			continue
+		}
+		for _, f := range p.Syntax {
+			for _, d := range f.Decls {
+				gd, ok := d.(*ast.GenDecl)
+				if !ok || gd.Tok != token.VAR {
+					continue
+				}
+				for _, sp := range gd.Specs {
+					vs := sp.(*ast.ValueSpec)
+					for i, name := range vs.Names {
+						if p.TypesInfo.Defs[name] != g.Object() || i >= len(vs.Values) {
+							continue
+						}
+						lit, ok := unparen(vs.Values[i]).(*ast.CompositeLit)
+						if !ok {
+							return nil
+						}
+						mt, ok := p.TypesInfo.TypeOf(lit).Underlying().(*types.Map)
+						if !ok {
+							return nil
+						}
+						st, ok := mt.Elem().Underlying().(*types.Struct)
+						if !ok {
+							return nil
+						}
+						var out []constTableEntry
+						for _, el := range lit.Elts {
+							kv, ok := el.(*ast.KeyValueExpr)
+							if !ok {
+								return nil
+							}
+							ktv := p.TypesInfo.Types[kv.Key]
+							if ktv.Value == nil || ktv.Value.Kind() != constant.String {
+								return nil
+							}
+							vl, ok := unparen(kv.Value).(*ast.CompositeLit)
+							if !ok {
+								return nil
+							}
+							ent := constTableEntry{Key: constant.StringVal(ktv.Value), Fields: map[string]constant.Value{}}
+							for j, fe := range vl.Elts {
+								var fname string
+								var fval ast.Expr
+								if fkv, ok := fe.(*ast.KeyValueExpr); ok {
+									id, ok := fkv.Key.(*ast.Ident)
+									if !ok {
+										return nil
+									}
+									fname, fval = id.Name, fkv.Value
+								} else {
+									if j >= st.NumFields() {
+										return nil
+									}
+									fname, fval = st.Field(j).Name(), fe
+								}
+								tv := p.TypesInfo.Types[fval]
+								if tv.Value == nil {
+									return nil
+								}
+								ent.Fields[fname] = tv.Value
+							}
+							// fields left out are zero values
+							for j := 0; j < st.NumFields(); j++ {
+								if _, have := ent.Fields[st.Field(j).Name()]; !have {
+									switch bt := st.Field(j).Type().Underlying().(type) {
+									case *types.Basic:
+										switch {
+										case bt.Info()&types.IsBoolean != 0:
+											ent.Fields[st.Field(j).Name()] = constant.MakeBool(false)
+										case bt.Info()&types.IsString != 0:
+											ent.Fields[st.Field(j).Name()] = constant.MakeString("")
+										case bt.Info()&types.IsNumeric != 0:
+											ent.Fields[st.Field(j).Name()] = constant.MakeInt64(0)
+										}
+									}
+								}
+							}
+							out = append(out, ent)
+						}
+						return out
+					}
+				}
+			}
+		}
+	}
+	return nil
+}
+
+// tableFieldLookup: v is `entry.field` of `entry, ok := table[key]` for a constant table: the table's entries, the
+// field read and the lookup instruction.
+func tableFieldLookup(w *World, v ssa.Value) (entries []constTableEntry, field string, lk *ssa.Lookup) {
+	var st ssa.Value
+	switch x := v.(type) {
+	case *ssa.Field:
+		stt, ok := x.X.Type().Underlying().(*types.Struct)
+		if !ok {
+			return nil, "", nil
+		}
+		field, st = stt.Field(x.Field).Name(), x.X
+	case *ssa.UnOp:
+		fa, ok := x.X.(*ssa.FieldAddr)
+		if !ok {
+			return nil, "", nil
+		}
+		// a struct spilled into a local: `known := entry` then `known.secure`
+		al, ok := fa.X.(*ssa.Alloc)
+		if !ok || al.Referrers() == nil {
+			return nil, "", nil
+		}
+		var only ssa.Value
+		for _, ref := range *al.Referrers() {
+			if s2, ok := ref.(*ssa.Store); ok && s2.Addr == ssa.Value(al) {
+				if only != nil {
+					return nil, "", nil
+				}
+				only = s2.Val
+			}
+		}
+		if only == nil {
+			return nil, "", nil
+		}
+		field, st = fieldVarOf(fa).Name(), only
+	default:
+		return nil, "", nil
+	}
+	ex, ok := st.(*ssa.Extract)
+	if !ok || ex.Index != 0 {
+		// a plain (not comma-ok) lookup
+		if l2, ok := st.(*ssa.Lookup); ok {
+			if g := codecGlobal(l2.X); g != nil {
+				return constTableOf(w, g), field, l2
+			}
+		}
+		return nil, "", nil
+	}
+	l, ok := ex.Tuple.(*ssa.Lookup)
+	if !ok {
+		return nil, "", nil
+	}
+	g := codecGlobal(l.X)
+	if g == nil {
+		return nil, "", nil
+	}
+	return constTableOf(w, g), field, l
+}
+
+// tableMissExcludes: is v the comma-ok of a lookup in a constant table that has `key` among its keys? (Then the
+// branch on which it is false has excluded that key.)
+func tableMissExcludes(w *World, v ssa.Value, key string) bool {
+	ex, ok := v.(*ssa.Extract)
+	if !ok || ex.Index != 1 {
+		return false
+	}
+	l, ok := ex.Tuple.(*ssa.Lookup)
+	if !ok {
+		return false
+	}
+	for _, e := range constTableOf(w, codecGlobal(l.X)) {
+		if e.Key == key {
+			return true
+		}
+	}
+	return false
 }
